@@ -10,6 +10,7 @@ from gambatools.gnfa import GNFA
 
 from gambatools.regexp import *
 from gambatools.dfa import State, Symbol as nfaSymbol, DFA
+from gambatools.dfa_algorithms import fresh_state
 from gambatools.nfa import NFA
 from gambatools.identifier_generator import IdentifierGenerator
 from gambatools.regexp import Regexp
@@ -213,11 +214,8 @@ def dfa_to_gnfa(D: DFA) -> GNFA:
     q0 = D.q0
     F = D.F
 
-    # TODO: use an identifier generator to avoid name clashes
-    q_start = State('start')
-    q_accept = State('accept')
-    assert q_start not in Q
-    assert q_accept not in Q
+    q_start = fresh_state(Q, 'start')
+    q_accept = fresh_state(Q, 'accept')
 
     Q1: Set[State] = Q | {q_accept, q_start}
     delta1 = defaultdict(lambda: regexp.Zero())  # MutableMapping[Tuple[State, State], regexp.Regexp]
